@@ -68,8 +68,18 @@ class SpecPOMDP(build.SpecMDP, TabularPOMDP):
         self.ol = OBS_LABELINGS[olabel]
         self.o_of = {self.ol(o): o for o in 'xyz'}
 
+    obs_kind = 'dict'
+
     def observation_dist(self, a, ns):
-        return DictDistribution({self.ol(o): float(p) for o, p in self.spec.Oall[self.a_of[a], self.s_of[ns]]})
+        pairs = [(self.ol(o), p) for o, p in self.spec.Oall[self.a_of[a], self.s_of[ns]]]
+        if self.obs_kind == 'special':
+            # single-outcome / equal-probability kernels through the other distribution classes
+            from msdm.core.distributions import DeterministicDistribution, UniformDistribution
+            if len(pairs) == 1 and pairs[0][1] == 1:
+                return DeterministicDistribution(pairs[0][0])
+            if len({p for _, p in pairs}) == 1 and sum(p for _, p in pairs) == 1:
+                return UniformDistribution(tuple(o for o, _ in pairs))
+        return DictDistribution({o: float(p) for o, p in pairs})
 
 
 # ------------------------------------------------------------------ alphabets
@@ -86,6 +96,8 @@ def obs_kernels(n, level=1):
             (y, x),                                     # swapped labels
             ((('x', one), ('y', z)), (('y', one), ('x', z))),  # revealing with explicit zero entries
             ((('x', one - F(1, 10 ** 9)), ('y', F(1, 10 ** 9))), (('x', one - F(3, 10 ** 9)), ('y', F(3, 10 ** 9)))),  # rare observation
+            # three observations, x and z equally informative (same posterior), y different, and more observations than states
+            ((('x', q), ('y', h), ('z', q)), (('x', F(3, 8)), ('y', q), ('z', F(3, 8)))),
         ]
         if level >= 2:
             ks += [((('x', h), ('y', h)), (('x', h), ('y', h))), ((('x', q), ('y', tq)), y),
